@@ -15,7 +15,12 @@ RULE = ('(a) exhaustive: every set of <=2 dependencies over all 9 ordered (child
         'service->host edge at load and at runtime add; (f) 12 cycle / near-cycle shapes (2- and 3-cycles, through one or two implicit '
         'service->host edges, service<->service) with EVERY assignment of {object Dependency, apply Dependency} to the edges and of '
         '{object Service, apply Service} to the services, i.e. every split of the edges over the commit rounds of one load, followed by '
-        'runtime additions closing the near-cycles; apply-rule edges/services also mixed into (c) and (e). non-trivial = at least one dependency accepted and (an unreachable verdict or a '
+        'runtime additions closing the near-cycles; apply-rule edges/services also mixed into (c) and (e); (g) a redundancy group whose '
+        'NAME is the object name of an object of the inventory (the plain parent, the child, a member, the host carrying the service '
+        'parents, an unrelated host; "host" and "host!service" forms): one child with a plain dependency and a two-member group, loaded '
+        'in every textual order, added at runtime in every order x removed in every order, or partly loaded and completed at runtime, '
+        'groups/registry dumped after every change and all 8 up/down assignments of the three parents queried; such names also '
+        'sampled into (c). non-trivial = at least one dependency accepted and (an unreachable verdict or a '
         'rejected cycle or >=2 groups); distinct = distinct script text')
 TRUSTED = ['model: coq/Dep/DgModel.v (transcription of Dependency::IsAvailable, DependencyGroup::GetState, Checkable::IsReachable, '
            'DependencyCycleChecker::AssertNoCycle + BeforeOnAllConfigLoadedHandler, Checkable::AddDependency/RemoveDependency/'
@@ -279,7 +284,7 @@ def random_graphs(rnd, cases, n):
             c, p = rand_edge()
             if rnd.random() < 0.2 and extra:
                 c, p, _ = rnd.choice(extra)
-            rg = rnd.choice(('-', '-', '1', '2'))
+            rg = rnd.choice(('-', '-', '1', '2', str(NAMED + p), str(NAMED + rnd.randrange(nn))))
             via = 'apply' if rnd.random() < apply_p else 'obj'
             w.lines.append(w.dep_line('dg_dep', w.next_dep, c, p, rg=rg, via=via, **w.rand_attrs(p)))
             extra.append((c, p, w.next_dep))
@@ -305,7 +310,7 @@ def random_graphs(rnd, cases, n):
                 c, p = rand_edge()
                 if rnd.random() < 0.3 and w.deps:
                     c, p = rnd.choice(list(w.deps.values()))
-                rg = rnd.choice(('-', '-', '1', '2'))
+                rg = rnd.choice(('-', '-', '1', '2', str(NAMED + p), str(NAMED + rnd.randrange(nn))))
                 w.lines.append(w.dep_line('dg_add', w.next_dep, c, p, rg=rg, **w.rand_attrs(p)))
                 if not w.cyclic([(c, p)]):
                     w.deps[w.next_dep] = (c, p)
@@ -481,12 +486,93 @@ def split_batches(rnd, cases):
                 cases.append({'lines': w.lines, 'tags': tags})
 
 
+NAMED = 100      # rg >= NAMED: the redundancy group carries EXACTLY the object name of node rg - NAMED (harness GroupText)
+
+
+def named_groups(rnd, cases):
+    """(g) a redundancy group named like an object of the inventory.  One child (host or service) with a plain dependency on
+    P (host or service, i.e. "host" and "host!service" name forms) and a redundancy group {R1, R2} whose NAME is the object name
+    of P / of the child / of R1 / of the host carrying the service parents / of an unrelated host / an ordinary text; loaded in
+    one batch (every textual order), added at runtime in every order and removed in every order, or loaded partly and completed
+    at runtime.  After every structural change: groups + registry, then all 8 up/down assignments of (P, R1, R2)."""
+    perms = list(itertools.permutations(range(3)))
+    for child_svc in (0, 1):
+        for p_svc in (0, 1):
+            for r_svc in (0, 1):
+                # 0 host (child or the child's host), 1 child service, 2 host carrying the service parents, 3 P, 4 R1, 5 R2, 6 unrelated host
+                lay = [None, 0, None, 2 if p_svc else None, 2 if r_svc else None, 2 if r_svc else None, None]
+                c = 1 if child_svc else 0
+                P, R1, R2 = 3, 4, 5
+                for like in ('P', 'child', 'R1', 'carrier', 'other', 'text'):
+                    if like == 'carrier' and not (p_svc or r_svc):
+                        continue
+                    rg = {'P': NAMED + P, 'child': NAMED + c, 'R1': NAMED + R1, 'carrier': NAMED + 2, 'other': NAMED + 6, 'text': 4}[like]
+                    if r_svc and like != 'P':
+                        continue        # service members only for the colliding name (keeps the family small)
+                    edges = [(P, '-'), (R1, str(rg)), (R2, str(rg))]
+                    modes = [('load', o, None) for o in perms]
+                    if like == 'P':
+                        modes += [('runtime', o, ro) for o in perms for ro in perms]
+                        modes += [('mixed%d' % k, o, perms[(k + i) % 6]) for i, o in enumerate(perms) for k in (1, 2)]
+                    else:
+                        modes += [('runtime', o, perms[(i * 5 + 1) % 6]) for i, o in enumerate(perms)]
+                    for mode, order, rorder in modes:
+                        w = W(rnd)
+                        layout(w, lay)
+
+                        def dl(op, i):
+                            par, g = edges[i]
+                            return w.dep_line(op, i, c, par, rg=g, sf=(3 if w.is_svc(par) else 16), iss=0, dc=1, dn=1)
+
+                        def sweep():
+                            w.lines.append('dg_g')
+                            for bits in range(8):
+                                w.tick(1)
+                                for j, n in enumerate((P, R1, R2)):
+                                    down = (bits >> j) & 1
+                                    w.lines.append('dg_set n=%d s=%d h=1' % (n, (2 if w.is_svc(n) else 1) if down else 0))
+                                w.lines.append('dg_q')
+                                w.lines.append('dg_g')
+                        nload = {'load': 3, 'runtime': 0, 'mixed1': 1, 'mixed2': 2}[mode]
+                        for i in order[:nload]:
+                            w.lines.append(dl('dg_dep', i))
+                            w.deps[i] = (c, edges[i][0])
+                        w.lines.append('dg_commit')
+                        for i in order[nload:]:
+                            w.lines.append(dl('dg_add', i))
+                            w.deps[i] = (c, edges[i][0])
+                            w.lines.append('dg_g')
+                            w.lines.append('dg_q')
+                        sweep()
+                        if rorder is not None:
+                            # P down, R1 up, R2 down: distinguishes the kinds while the dependencies leave one by one
+                            w.tick(1)
+                            for n, down in ((P, 1), (R1, 0), (R2, 1)):
+                                w.lines.append('dg_set n=%d s=%d h=1' % (n, (2 if w.is_svc(n) else 1) if down else 0))
+                            for k, i in enumerate(rorder):
+                                w.lines.append('dg_del d=%d' % i)
+                                w.lines.append('dg_g')
+                                w.lines.append('dg_q')
+                                if k == 1:
+                                    # one dependency left: bring the first removed one back (new id) and take it away again
+                                    j = rorder[0]
+                                    par, g = edges[j]
+                                    w.lines.append(w.dep_line('dg_add', 10 + j, c, par, rg=g, sf=(3 if w.is_svc(par) else 16), iss=0, dc=1, dn=1))
+                                    w.lines.append('dg_g')
+                                    w.lines.append('dg_q')
+                                    w.lines.append('dg_del d=%d' % (10 + j))
+                                    w.lines.append('dg_g')
+                        cases.append({'lines': w.lines, 'tags': {'family': 'named-group-%s-%s' % (like, mode.rstrip('12')),
+                                                                 'group_named_like_parent': like == 'P'}})
+
+
 def generate(seed, tier):
     rnd = random.Random(seed)
     cases = []
     big = tier in ('thorough',)
     exhaustive_small(rnd, cases)
     split_batches(rnd, cases)
+    named_groups(rnd, cases)
     sampled_small(rnd, cases, {'quick': 1500, 'thorough': 12000, 'search': 3000}.get(tier, 1500))
     random_graphs(rnd, cases, {'quick': 400, 'thorough': 4000, 'search': 800}.get(tier, 400))
     implicit_cycles(rnd, cases, {'quick': 60, 'thorough': 400, 'search': 100}.get(tier, 60))
@@ -526,6 +612,7 @@ def extra_stats(cases, impl):
           'max_registry': 0}
     st['loads_with_2plus_rounds'] = sum(1 for c in cases if c.get('tags', {}).get('rounds', 1) >= 2)
     st['cases_cycle_spanning_2plus_batches'] = sum(1 for c in cases if c.get('tags', {}).get('span_batches'))
+    st['cases_group_named_like_plain_parent'] = sum(1 for c in cases if c.get('tags', {}).get('group_named_like_parent'))
     st['cases_runtime_add_closing_multi_round_cycle'] = sum(1 for c in cases if c.get('tags', {}).get('rt_closes_multi_round'))
     for c in cases:
         for l in impl.get(c['id'], []):
